@@ -77,10 +77,12 @@ class Soup:
         parts = []
         feats = set()
         if oscat:
-            body = self.rng.choice([' some text \n more ', ' é non ascii ü \n x', '', '\n\n', ' a (* nested *) b ', ' 日本 '])
+            body = self.rng.choice([' some text \n more ', ' é non ascii ü \n x', '', '\n\n', ' a (* nested *) b ', ' 日本 ',
+                                    ' line1\r\n line2\r\n', '\r\n', ' é\r\n\r\nü ', ' tab\t\r\n x '])
             parts.append('(*@KEY@:DESCRIPTION*)' + body + '(*@KEY@:END_DESCRIPTION*)')
             feats.add('oscat')
             if any(ord(c) > 127 for c in body): feats.add('oscat-nonascii')
+            if '\r\n' in body: feats.add('oscat-crlf')
         for _ in range(n):
             k, t = self.lexeme(allow_err, allow_ff)
             feats.add(k)
